@@ -160,6 +160,7 @@ static void h4v_stdio_init(int may_fail)
     H4V_HAVOC(long, g_off);
     H4V_HAVOC(int, g_last_stdio);
     H4V_ASSUME(g_last_stdio >= 0 && g_last_stdio <= 2);
+    H4V_ASSUME(g_off >= 0 && g_off <= (1L << 40) && g_fpos >= 0 && g_fpos <= (1L << 40));
     g_pos_valid = 1;
 }
 #endif
